@@ -22,7 +22,6 @@ package bcl
 //@ func (*vm).run
 //@   requires prog_set: vm.prog != nil && vm.prog.linePos != nil
 //@   requires initial: vm.tos == 0 && vm.blockTos == 0 && vm.pc == 0
-//@   modifies vm.pc, vm.tos, vm.stack, vm.blockStack, vm.blockTos, vm.result, vm.binding, vm.stats
 //
 //@   loop 1 invariant ranges: 0 <= vm.tos && vm.tos <= 1024 && 0 <= vm.blockTos && vm.blockTos <= 16 && vm.pc >= 0 && vm.prog == old(vm.prog) && vm.prog.linePos != nil && !overflow
 //@   loop 1 invariant blocks_have_maps: forall i int :: 0 <= i && i < vm.blockTos ==> vm.blockStack[i].Fields != nil && isnew(vm.blockStack[i].Fields)
